@@ -147,6 +147,60 @@ def sub_seed(*salt):
 
 
 # ---------------------------------------------------------------------------
+# Reach evidence (DESIGN.md 3.5): one harness TU rebuilt with clang source-based coverage, run on a reduced workload;
+# reports, per header the property is anchored in, how many functions / lines / regions / branches the run executed.
+# It is evidence that the workload reaches the mechanism; it never changes a verdict.
+def anchored_headers(pid):
+    try:
+        for l in open(os.path.join(VERIF, "properties.jsonl")):
+            p = json.loads(l)
+            if p["id"] == pid:
+                return [f for f in p["anchors"]["files"] if f.endswith(".hh")]
+    except Exception:
+        pass
+    return []
+
+
+def reach(chk, tu, arg_lists, std="c++14", extra_headers=(), is_file=False):
+    try:
+        d = subdir("reach")
+        tag = hashlib.md5((chk.pid + str(len(tu))).encode()).hexdigest()[:8]
+        src = tu if is_file else write(os.path.join(d, f"r{tag}.cc"), tu)
+        exe = os.path.join(d, f"r{tag}.exe")
+        cmd = compile_cmd(CLANGXX, std, "-O0 -g -fprofile-instr-generate -fcoverage-mapping", src, exe)
+        rc, so, se = sh(cmd, timeout=900)
+        if rc != 0:
+            chk.notes["reach"] = {"error": "coverage build failed: " + se[:200]}
+            return
+        raws = []
+        for i, args in enumerate(arg_lists):
+            raw = os.path.join(d, f"r{tag}_{i}.profraw")
+            rc, so, se = sh([exe] + [str(a) for a in args], timeout=900, env=dict(os.environ, LLVM_PROFILE_FILE=raw))
+            if os.path.exists(raw):
+                raws.append(raw)
+        prof = os.path.join(d, f"r{tag}.profdata")
+        rc, so, se = sh(["llvm-profdata-14", "merge", "-sparse"] + raws + ["-o", prof], timeout=300)
+        heads = [os.path.join(REPO, h) for h in list(anchored_headers(chk.pid)) + list(extra_headers)]
+        heads = [h for h in heads if os.path.exists(h)]
+        rc, so, se = sh(["llvm-cov-14", "report", exe, f"-instr-profile={prof}"] + heads, timeout=300)
+        out = {}
+        for line in so.splitlines():
+            f = line.split()
+            if len(f) >= 13 and f[0].endswith(".hh"):
+                reg, mreg, fn, mfn, ln, mln, br, mbr = int(f[1]), int(f[2]), int(f[4]), int(f[5]), int(f[7]), int(f[8]), int(f[10]), int(f[11])
+                out[f[0]] = {"functions_executed": f"{fn - mfn}/{fn}", "lines_executed": f"{ln - mln}/{ln}", "regions_executed": f"{reg - mreg}/{reg}", "branches_executed": f"{br - mbr}/{br}"}
+        chk.notes["reach"] = {"how": "one harness TU rebuilt with clang -fprofile-instr-generate -fcoverage-mapping and run on a reduced workload; instantiated code of the anchored headers only (code evaluated at compile time does not appear)",
+                              "runs": len(raws), "per_header": out}
+        for f_ in raws + [prof, exe]:
+            try:
+                os.unlink(f_)
+            except OSError:
+                pass
+    except Exception as e:  # evidence only
+        chk.notes["reach"] = {"error": str(e)[:200]}
+
+
+# ---------------------------------------------------------------------------
 # Verdict collection, known findings, evidence.
 # ---------------------------------------------------------------------------
 class Check:
@@ -198,6 +252,12 @@ class Check:
     # -- finishing --------------------------------------------------------
     def finish(self):
         wall = time.time() - self.t0
+        # an instance dropped because of an error inside the harness itself is a harness bug, not the library's policy at work
+        rej = self.notes.get("rejected_by_library")
+        if isinstance(rej, list):
+            hb = [r for r in rej if isinstance(r, dict) and HARNESS in str(r.get("err", ""))]
+            if hb:
+                self.fail_inconclusive(f"{len(hb)} instance(s) were dropped because of errors in the harness itself: {str(hb[0].get('err'))[:160]}")
         ev = {
             "property_id": self.pid,
             "tier": self.tier,
